@@ -1003,6 +1003,7 @@ def gen_table(which, fname):
             changed = core.write_if_changed(path, so.decode())
         if changed:
             log("Gen/%s regenerated (changed)" % fname)
+    g.key = which
     return g
 
 
